@@ -193,6 +193,7 @@ func runOne(s *scenario, idx int, derived uint64) (line string, viol []string, d
 
 	// fault injector
 	var injWG sync.WaitGroup
+	var stopIssuing atomic.Bool
 	stopInj := make(chan struct{})
 	injected := atomic.Int32{}
 	srvStopped := false
@@ -255,6 +256,9 @@ func runOne(s *scenario, idx int, derived uint64) (line string, viol []string, d
 					}
 					srvStopped = true
 					injected.Add(1)
+					// Calls to a stopped server only wait for refused dials (with the client's
+					// back-off of up to a second each): no more calls are issued.
+					stopIssuing.Store(true)
 				case modeCliClose:
 					w.cls[int(pick>>1)%len(w.cls)].Close()
 					injected.Add(1)
@@ -272,7 +276,7 @@ func runOne(s *scenario, idx int, derived uint64) (line string, viol []string, d
 			defer wg.Done()
 			for {
 				i := int(next.Add(1)) - 1
-				if i >= len(plans) {
+				if i >= len(plans) || stopIssuing.Load() {
 					return
 				}
 				w.doCall(plans[i])
